@@ -365,11 +365,9 @@ impl<'a, R: Resolve, U: Updater> Cloner for Importer<'a, R, U> {
         let new = promise.get_inner();
         self.map.insert(old.get_inner(), new);
 
-        match obj.deep_clone(self) {
-            Ok(clone) => {
-                self.updater.fulfill(promise, clone)?;
-                Ok(Ref::new(new))
-            }
+        // a copy the typed writer refuses (fulfill fails) is a failed copy like any other
+        match obj.deep_clone(self).and_then(|clone| self.updater.fulfill(promise, clone)) {
+            Ok(_) => Ok(Ref::new(new)),
             Err(e) => {
                 // keep the new file writable: the reserved id becomes a null object
                 self.map.remove(&old.get_inner());
@@ -389,11 +387,8 @@ impl<'a, R: Resolve, U: Updater> Cloner for Importer<'a, R, U> {
         let new = promise.get_inner();
         self.map.insert(old, new);
 
-        match obj.deep_clone(self) {
-            Ok(clone) => {
-                self.updater.fulfill(promise, clone)?;
-                Ok(new)
-            }
+        match obj.deep_clone(self).and_then(|clone| self.updater.fulfill(promise, clone)) {
+            Ok(_) => Ok(new),
             Err(e) => {
                 self.map.remove(&old);
                 self.updater.update(new, Primitive::Null)?;
@@ -420,9 +415,8 @@ impl<'a, R: Resolve, U: Updater> Cloner for Importer<'a, R, U> {
         let new_ref = promise.get_inner();
         self.map.insert(old_ref, new_ref);
 
-        match old.data().deep_clone(self) {
-            Ok(data) => {
-                let new = self.updater.update::<T>(new_ref, data)?;
+        match old.data().deep_clone(self).and_then(|data| self.updater.update::<T>(new_ref, data)) {
+            Ok(new) => {
                 self.rcrefs.insert(new_ref, AnySync::new(new.data().clone()));
                 Ok(new)
             }
